@@ -343,31 +343,75 @@ def sentinels(m: Model, seed: int) -> List[int]:
 
 
 # --------------------------------------------------------------------------------------- describing accesses
+OVERLAY_REGIONS = ("oram", "orom", "card", "card-ro", "card-absent")
+PLAIN_REGIONS = ("ram", "ram-top256", "int", "int-io", "card-beyond", "romslice", "lcd", "code")
+
+
 def describe(m: Model, addr: int, nbytes: int) -> Tuple[str, List[str]]:
-    """(regions string, flags) of an access -- semantic, no raw values."""
+    """(regions string, situation flags) of an access -- semantic, no raw values.
+
+    flags: a24 (address >= 2^24), hi-mapped / hi-plain (a byte address in 0x100100..0xFFFFFF whose cell is / is not
+    in an overlay, read-only range, ROM or the mirror target RAM), mir (a byte address is a non-canonical mirror
+    alias), split (the bytes' canonical cells are not consecutive), int-end (multi-byte access running past internal
+    offset 0xFF), ext-top (multi-byte access running from external space into 0x100000), mir-split (mir + split),
+    ovl-edge (multi-byte access whose bytes are not all inside the same overlay / all outside overlays), ro-edge
+    (multi-byte access with some bytes in a read-only range / ROM window and some not)."""
     cells = m.cells(addr, nbytes)
     names: List[str] = []
+    per_byte: List[str] = []
     for c in cells:
         n = m.info(c)[0]
+        per_byte.append(n)
         if not names or names[-1] != n:
             names.append(n)
     flags: List[str] = []
     if addr >= 0x1000000:
         flags.append("a24")
-    hi = mir = False
+    hi_mapped = hi_plain = mir = False
     for i in range(nbytes):
         r = ((addr + i) & 0xFFFFFFFF) & 0xFFFFFF
         if r >= INT + 0x100:
-            hi = True
+            if per_byte[i] in PLAIN_REGIONS:
+                hi_plain = True
+            else:
+                hi_mapped = True
         elif r < INT and m.mirror and MIRROR_LO <= r < MIRROR_BASE:
             mir = True
-    if hi:
-        flags.append("hi")
+    if hi_mapped:
+        flags.append("hi-mapped")
+    if hi_plain:
+        flags.append("hi-plain")
     if mir:
         flags.append("mir")
+    split = False
     for i in range(len(cells) - 1):
         a, b = cells[i], cells[i + 1]
         if b != a + 1 or (a < INT) != (b < INT):
-            flags.append("split")
+            split = True
             break
+    if split:
+        flags.append("split")
+    if nbytes > 1:
+        first = addr & 0xFFFFFF
+        last = first + nbytes - 1
+        if INT <= first < INT + 0x100 and last >= INT + 0x100:
+            flags.append("int-end")
+        if first < INT <= last:
+            flags.append("ext-top")
+        if mir and split:
+            flags.append("mir-split")
+        ids = set()
+        for c in cells:
+            oid = None
+            if c < INT:
+                for k, (lo, hi, name, cls, _) in enumerate(m.regions):
+                    if lo <= c <= hi:
+                        oid = k if name in OVERLAY_REGIONS else None
+                        break
+            ids.add(oid)
+        if len(ids) > 1:
+            flags.append("ovl-edge")
+        ro = [n in ("ro", "rom") for n in per_byte]
+        if any(ro) and not all(ro):
+            flags.append("ro-edge")
     return "|".join(names), flags
